@@ -108,12 +108,15 @@ def stepFails (pre : State) (op : Op) (accepted : Bool) (post : State) : List (S
       | some na, some nb =>
         let sold := if buy then incr pre post (poolAddr na) inD else inA.toNat
         let bought := if buy then outA.toNat else decr pre post (poolAddr nb) outD
-        let k := decr pre post (poolAddr na) pre.std
+        -- the intermediate amount, as seen from the first pool (paid out) or from the second (paid
+        -- in; twice when the recipient of the code's first leg is the second escrow itself)
+        let ks := [decr pre post (poolAddr na) pre.std, incr pre post (poolAddr nb) pre.std,
+                   incr pre post (poolAddr nb) pre.std / 2]
         (if buy then check (decide ((sold : Int) ≤ inA)) "max-paid"
          else if rcpt = poolAddr nb then [] else check (decide (outA ≤ (bought : Int))) "min-received") ++
-        (if ledgerB pre.bank post.bank (doubleSpec sender rcpt na nb inD pre.std outD sold k bought) then []
+        (if ks.any (fun k => ledgerB pre.bank post.bank (doubleSpec sender rcpt na nb inD pre.std outD sold k bought)) then []
          else if sender ≠ rcpt ∧
-                 ledgerB pre.bank post.bank (doubleCode sender rcpt na nb inD pre.std outD sold k bought)
+                 ks.any (fun k => ledgerB pre.bank post.bank (doubleCode sender rcpt na nb inD pre.std outD sold k bought))
            then [("double-hop-netting", "F-swap-1")]
          else fail "swap-ledger")
       | _, _ => fail "swap-without-pool"
